@@ -3898,6 +3898,13 @@ func (c *Compiler) setWasmGlobalValue(index wasm.Index, v ssa.Value) {
 		store.AsStore(ssa.OpcodeStore, v, loadGlobalInstPtr.Return(), uint32(0))
 		builder.InsertInstruction(store)
 
+		// A module can import the same global more than once: another imported index of this type may name the
+		// instance that was just written, so the values cached for those are reloaded (and optimized out if unused).
+		for _, other := range c.mutableGlobalVariablesIndexes {
+			if other != index && other < c.m.ImportGlobalCount && c.globalVariablesTypes[other] == c.globalVariablesTypes[index] {
+				_ = c.getWasmGlobalValue(other, true)
+			}
+		}
 	} else {
 		store := builder.AllocateInstruction()
 		store.AsStore(ssa.OpcodeStore, v, c.moduleCtxPtrValue, uint32(opaqueOffset))
